@@ -4,13 +4,14 @@ CONSTANTS
   PEERS = {"p1", "p2"}
   Thr = 1
   CheckMode = "once"
-  RenewMode = "sticky"
+  RenewMode = "restart"
   W = 2
   AccN = 6
-  MaxArr = 4
+  MaxArr = 3
   MaxT = 2
   REPS = {1}
+  Staged = FALSE
   PsFree = FALSE
   InitSets = {{"p1"}, {"p1", "p2"}}
 VIEW View
-INVARIANTS InvAtMostOne InvIsLatest InvValidUnexpiredMember InvNoFalseAlarm InvAlertOnce InvForgotten InvObserverSane
+INVARIANTS InvAtMostOne InvIsLatest InvValidUnexpiredMember InvNoFalseAlarm InvAlertOnce InvReported InvForgotten InvObserverSane
